@@ -247,7 +247,7 @@ def k3_version(rep: Report, K: Kernel, tier: str) -> None:
                         c.stats["refuted"] += 1
                         m = c.path_model()
                         open_end = vs[0] == "full" or (vs[0] == "slice" and vs[2] is None)
-                        nop = op if order == 0 else R.reverse_op.get(op, op)
+                        nop = op if order == 0 else {"==": "==", "!=": "!=", "<": ">", ">": "<", "<=": ">=", ">=": "<="}.get(op, op)
                         lo_m = m.get("b", 0) if (vs[0] == "slice" and vs[1] == "sym") else 0
                         tgt = [m["major"], m["minor"]][lo_m:2] if isinstance(lo_m, int) and 0 <= lo_m <= 2 else None
                         thing_m = [m.get(f"t{j}") for j in range(ts[1])] if ts[0] == "tuple" else None
